@@ -42,6 +42,9 @@ type c18conn struct {
 	binds    map[string][][]byte // bind tag (first param) -> params sent
 	lateExec int
 	pw       string // the password this connection logs in with (lengths 1..26)
+	// the client parameter map as the validator was handed it (kept, not copied) and the pairs the client sent
+	cpMap  wire.Parameters
+	cpSent [][2]string
 }
 
 func (st *c18conn) recheck(when string) {
@@ -60,6 +63,17 @@ func (st *c18conn) recheck(when string) {
 			st.bad = fmt.Sprintf("%s retained item %d changed (%s): now %s, was %s", it.What, i, when, hexs(got), hexs(it.Want))
 		}
 	}
+	if st.cpMap != nil && st.bad == "" {
+		st.rechecks++
+		for _, kv := range st.cpSent {
+			if got, ok := st.cpMap[wire.ParameterStatus(kv[0])]; !ok || got != kv[1] {
+				st.bad = fmt.Sprintf("client parameter %s in the map the validator kept changed (%s): now %q (present=%v), the client sent %q", kv[0], when, got, ok, kv[1])
+			}
+		}
+		if len(st.cpMap) != len(st.cpSent) && st.bad == "" {
+			st.bad = fmt.Sprintf("the client parameter map the validator kept has %d entries (%s), the client sent %d: %v", len(st.cpMap), when, len(st.cpSent), st.cpMap)
+		}
+	}
 }
 
 func (st *c18conn) keepS(what string, s *string, want string) {
@@ -72,6 +86,7 @@ func c18validator(ctx context.Context, database, username, password string) (con
 	st.keepS("password", &pw, st.pw)
 	st.keepS("database", &db, "retention-db")
 	st.keepS("username", &us, "retention-user")
+	st.cpMap = wire.ClientParameters(ctx)
 	return ctx, true, nil
 }
 
@@ -211,7 +226,14 @@ func (ch c18) runCase(c *core.Ctx, env *hs.Env, L int, rng *core.Rng, idx int) {
 	st := &c18conn{sentQ: map[string]bool{}, binds: map[string][][]byte{}, pw: core.Pick(rng, []string{"secret-password-0123456789", "s3cr3t", "pw", "x", "1234567"})}
 	cs := map[string]any{"L": L, "index": idx}
 	cl := hs.NewClient(env.Dial(st))
-	cl.C.Send(pg.Startup([][2]string{{"user", "retention-user"}, {"database", "retention-db"}, {"application_name", "retention-app-name-xyz"}}))
+	st.cpSent = [][2]string{{"user", "retention-user"}, {"database", "retention-db"}, {"application_name", "retention-app-name-xyz"}}
+	if idx%3 != 0 {
+		// what drivers announce besides: an encoding (not always the server's), a date style, a time zone
+		st.cpSent = append(st.cpSent, [2]string{"client_encoding", core.Pick(rng, []string{"LATIN1", "SQL_ASCII", "utf8", "UTF8", "WIN1252", "'UTF-8'"})},
+			[2]string{"DateStyle", "ISO, MDY"}, [2]string{"TimeZone", core.Pick(rng, []string{"Europe/Amsterdam", "UTC", "PST8PDT"})}, [2]string{"extra_float_digits", "2"})
+		c.Count("startups_announcing_encoding_datestyle_timezone", 1)
+	}
+	cl.C.Send(pg.Startup(st.cpSent))
 	cl.C.Quiesce()
 	cl.C.Send(pg.Password(st.pw))
 	if _, ok := cl.C.Quiesce(); !ok {
@@ -231,7 +253,8 @@ func (ch c18) runCase(c *core.Ctx, env *hs.Env, L int, rng *core.Rng, idx int) {
 	if rng.Intn(3) == 0 {
 		nb = &c18conn{sentQ: map[string]bool{"neighbour query": true}, binds: map[string][][]byte{}, pw: "neighbour-password"}
 		nbc = hs.NewClient(env.Dial(nb))
-		nbc.C.Send(pg.Startup([][2]string{{"user", "retention-user"}, {"database", "retention-db"}, {"application_name", "retention-app-name-xyz"}}))
+		nb.cpSent = [][2]string{{"user", "retention-user"}, {"database", "retention-db"}, {"application_name", "retention-app-name-xyz"}, {"client_encoding", "LATIN9"}}
+		nbc.C.Send(pg.Startup(nb.cpSent))
 		nbc.C.Quiesce()
 		nbc.C.Send(pg.Password(nb.pw))
 		nbc.C.Quiesce()
